@@ -244,4 +244,49 @@ theorem shuffle_correct_regs (cfg : Cfg) (f : FrameIn) (vals : Vals) (hr : RegOn
         rw [← patch_regType, ← patch_regId, ← hout, ← hv.grp, ← hreg]; exact hget
       simp [this, htv, hdv]
 
+/-! ### executable mirror of `WF` / `RegOnly` for the runtime check of the driver (`wf0` op): every initial context the sweep
+    reaches must satisfy the invariant the theorem starts from -/
+def formB (p : Params) (i : Nat) (v : Var) (tok : Tok) : Bool :=
+  (v.cur.typeId == (p.src i).typeId && v.cur.regType == (p.src i).regType && tok == initTok p.vis i) ||
+  (v.cur.typeId == v.out.typeId && v.cur.regType == v.out.regType && tok.dv)
+
+def varOkB (p : Params) (c : Ctx) (M : State) (i : Nat) (v : Var) : Bool :=
+  v.out == p.out i && v.cur.isReg && v.out.isReg && v.outInit && groupOf v.cur.regType == groupOf v.out.regType &&
+  decide (groupOf v.out.regType < 4) && decide (v.cur.regId < 32) && decide (v.out.regId < 32) &&
+  physAt c (groupOf v.cur.regType) v.cur.regId == some i &&
+  (match M.get (vloc v) with
+   | some tok => tok.var == i && (v.done || formB p i v tok) && (!v.done || (v.cur.regId == v.out.regId && tok.dv)) &&
+                 (v.done || !hasSwap p.cfg.arch (groupOf v.cur.regType) || tok == initTok p.vis i)
+   | none => false) &&
+  (v.done || !hasSwap p.cfg.arch (groupOf v.cur.regType) || v.cur == p.src i)
+
+def wfB (p : Params) (e : Emit) (M : State) : Bool :=
+  e.ctx.vars.length == p.n && e.ctx.wd.length == 4 && (List.range 4).all (fun g => (e.ctx.w g).phys.length == 32) &&
+  run p.vis p.f.saOffSp p.f.saOffSa (spId p.cfg.arch) p.M0 e.out == some M &&
+  (List.range p.n).all (fun i => varOkB p e.ctx M i (e.ctx.var i)) &&
+  (List.range 4).all (fun g => (List.range 32).all fun r =>
+    match physAt e.ctx g r with
+    | none => true
+    | some j => decide (j < p.n) && groupOf (e.ctx.var j).cur.regType == g && (e.ctx.var j).cur.regId == r) &&
+  !e.ctx.hasStackSrc
+
+def regOnlyB (vals : Vals) : Bool :=
+  (List.range vals.length).all (fun i =>
+    (vals.getD i dfltVal).2.isSome && (srcAt vals i).isReg && !(srcAt vals i).isIndirect && decide ((srcAt vals i).regId < 32) &&
+    (dstAt vals i).isReg && groupOf (srcAt vals i).regType == groupOf (dstAt vals i).regType) &&
+  (List.range vals.length).all (fun i => (List.range vals.length).all fun j =>
+    i == j || !(groupOf (srcAt vals i).regType == groupOf (srcAt vals j).regType && (srcAt vals i).regId == (srcAt vals j).regId))
+
+/-- `none`: not a register-only assignment, `DoneInitOk` fails (K7) or `init_work_data` refuses it; `some b`: does the initial context satisfy `WF`? -/
+def doneInitOkB (vals : Vals) : Bool :=
+  (List.range vals.length).all fun i =>
+    !doneAtInit (srcAt vals i) (patchRegDst (dstAt vals i)) (groupOf (dstAt vals i).regType) (dstAt vals i).regId ||
+    (initTok (vals.map varInfoOf) i).dv
+
+def initialWfCheck (cfg : Cfg) (f : FrameIn) (vals : Vals) : Option Bool :=
+  if !regOnlyB vals || !doneInitOkB vals then none else
+  match initWorkData cfg.arch f 255 vals with
+  | .error _ => none
+  | .ok ctx => some (wfB (paramsOf cfg f vals) { ctx := ctx } (paramsOf cfg f vals).M0)
+
 end AsmjitVerif.C06S
